@@ -404,10 +404,29 @@ def bounded(rep, tier):
                     val, end = scan_literal(sql, i, kind) if i >= 0 else (None, 0)
                     if val != str(v):
                         fails.setdefault(f'C07.bounded.{tgt}.type.{tname}', (repr(v), f'[{pos}] `{sql[:100]}` -> literal read as {val!r}'))
+    # rows given as plain python values are the same literals as the constants holding those values: for every target the statement text is the same
+    plain_vals = [None, 0, 1, -5, 0.0, 1.5, True, False, '', 'a', "it's", 'NULL', _dt.date(2020, 1, 2), _dt.datetime(2020, 1, 2, 3, 4, 5)]
+    for v in plain_vals:
+        for other in (7, 'z', None):
+            try:
+                q_plain = Insert(table=Identifier('t'), columns=[Identifier('c'), Identifier('d')], values=[[v, other]], is_plain=True)
+                q_const = Insert(table=Identifier('t'), columns=[Identifier('c'), Identifier('d')], values=[[Constant(v), Constant(other)]])
+            except TypeError:
+                continue
+            for tgt in TARGETS:
+                n += 1
+                try:
+                    a_, b_ = renders[tgt].get_string(q_plain), renders[tgt].get_string(q_const)
+                except Exception as e:
+                    fails.setdefault(f'C07.bounded.{tgt}.plain-row.raises', (repr((v, other)), f'{type(e).__name__}: {str(e)[:80]}'))
+                    continue
+                a_, b_ = a_[a_.upper().find('VALUES'):], b_[b_.upper().find('VALUES'):]        # the literals; the statement frame may come from the fallback printer
+                if ' '.join(a_.split()) != ' '.join(b_.split()):
+                    fails.setdefault(f'C07.bounded.{tgt}.plain-row.{type(v).__name__}', (repr((v, other)), f'row of plain values renders `{a_[:90]}`, the same row of constants `{b_[:90]}`'))
     rep.bounded_evals = n
     rep.bounded_rule = (f'all strings of length <= {maxlen} over {chars} plus injection-shaped samples, as Constant in select list / WHERE / IN list / INSERT / UPDATE, '
                         'rendered by the real SqlalchemyRender for 5 dialects and scanned by an independent scanner of the target family; own to_string re-parsed; '
-                        'failures grouped by target x value region; date / datetime / timedelta / bool / int / float constants in select list, WHERE and INSERT (own text re-parsed; quoted kinds scanned in every target); mixtures of equal-valued int/float/bool/str/NULL constants in one statement and across statements of one renderer vs each constant rendered alone')
+                        'failures grouped by target x value region; date / datetime / timedelta / bool / int / float constants in select list, WHERE and INSERT (own text re-parsed; quoted kinds scanned in every target); mixtures of equal-valued int/float/bool/str/NULL constants in one statement and across statements of one renderer vs each constant rendered alone; INSERT rows of plain python values (None, numbers, booleans, strings, dates) vs the same rows of constants, per target')
     for cid, (inp, obs) in sorted(fails.items()):
         rep.add_bounded(Bounded(cid, False, inp, obs, 'one literal, read back as the value', bound=f'len<={maxlen}'))
 
